@@ -273,6 +273,52 @@ def chunk_file(path, n, outdir):
         files.append(p)
     return files, len(lines)
 
+PUSH_INVS = ['C19_PushReportsTruthfully', 'C19_PushNoStrayRequest', 'C19_PushRequestAsBuilt', 'C19_PushReportedOnce', 'C19_PushSurvives']
+
+def push_stage(pid, tier, rundir):
+    """C19, the http transport: Push.tla model-checked, the scenarios of PushGen.tla played by pushx against the real sender
+    worker + the real http plugin + receivers on the loopback interface, the record judged by TLC (PushTrace.tla).
+    Returns (violation or None, info)."""
+    core.build(['pushx'])
+    mc_cfg = f'{rundir}/mcpush.cfg'
+    shutil.copy(f'{core.SPEC}/MC_Push.cfg', mc_cfg)
+    rc, out = core.tlc('MC_Push.tla', mc_cfg, f'{rundir}/mcpush', workers=8, heap='4g', timeout=900)
+    gen, dist = core.stats(out)
+    if 'No error has been found' not in out:
+        print(out[-2000:]); core.die('MC_Push: the exhaustive configuration failed (machinery)')
+    info = dict(model_states=dist, scenarios=0, events=0, requests=0, cmds=[])
+    for sz in (1, 2):
+        cfg = f'{rundir}/pushgen{sz}.cfg'
+        open(cfg, 'w').write(f'SPECIFICATION GSpec\nCONSTANTS\n  Size = {sz}\n  Msgs <- MCMsgs\nINVARIANTS\n  Emit\n  GDone\n')
+        rc, out = core.tlc('PushGen.tla', cfg, f'{rundir}/pushgen{sz}', workers=2, heap='2g', timeout=600)
+        scs = [json.loads(m.group(1)) for m in re.finditer(r'<<"PUSHGEN", (".*")>>', out)]
+        if 'No error has been found' not in out or not scs:
+            print(out[-1500:]); core.die('PushGen: TLC could not generate the scenarios (machinery)')
+        scf, obs = f'{rundir}/push-sc{sz}.ndjson', f'{rundir}/push-obs{sz}.ndjson'
+        open(scf, 'w').write('\n'.join(scs) + '\n')
+        cmd = f'{V}/build/pushx -scenarios {scf} -out {obs} -par 16'
+        info['cmds'].append(cmd)
+        p = core.sh(cmd)
+        if p.returncode != 0:
+            if 'panic' in p.stderr or 'fatal error' in p.stderr:
+                dd = f'{V}/run/violations/{pid}-{int(time.time())}-{os.getpid()}'
+                os.makedirs(dd, exist_ok=True)
+                shutil.copy(scf, f'{dd}/scenarios.ndjson')
+                open(f'{dd}/stderr.txt', 'w').write(p.stderr[-5000:])
+                json.dump(dict(property=pid, invariant='C19_PushSurvives (process died)', regenerate=cmd), open(f'{dd}/violation.json', 'w'), indent=1)
+                print(p.stderr[-600:])
+                return dict(violated='C19_PushSurvives', line=None, trace=scf, died=dd), info
+            print(p.stdout[-1000:], p.stderr[-1000:]); core.die(f'pushx failed: {cmd}')
+        m = re.search(r'(\d+) scenarios, (\d+) events, (\d+) requests', p.stderr)
+        info['scenarios'] += int(m.group(1)); info['events'] += int(m.group(2)); info['requests'] += int(m.group(3))
+        r = tlc_trace('PushTrace.tla', obs, PUSH_INVS, f'{rundir}/vpush{sz}', extra_consts=f'  Size = {sz}\n  Msgs = {{}}\n  Known = {{}}\n', spec='TSpec')
+        if r['error']:
+            print(r['error']); core.die('TLC could not validate the push observations (machinery error)')
+        if r['violated']:
+            r['module'] = 'PushTrace.tla'; r['cmd'] = cmd
+            return r, info
+    return None, info
+
 def run_table(pid, tier, seed):
     t0 = time.time()
     rundir = f'{V}/run/{pid}-{tier}-{os.getpid()}'
@@ -315,21 +361,30 @@ def run_table(pid, tier, seed):
         if r['violated'] and viol is None:
             r['module'] = tracemod; viol = r
     samples = [json.loads(l) for l in open(obs).read().splitlines()[:3]]
+    push = None
+    if pid == 'C19' and not viol:
+        pv, push = push_stage(pid, tier, rundir)
+        if pv:
+            cmds.append(pv.get('cmd', ''))
+            viol = pv
     wall = time.time() - t0
     cov = dict(states=nlines, transitions=nlines, traces_validated_against_impl=nlines, evaluations=nlines, distinct_nontrivial=nvec,
                rule='the finite table is enumerated completely by TLC (one vector per case); each vector is played once per protocol against the real code; every vector is distinct and non-trivial by construction',
                vectors=nvec, harness_summary=summary, samples=samples, exhaustive=True, known_findings_met=sorted(seen))
     assumptions = ['the table in the TLA+ module is the statement of the property', 'real servers and real clients over the loopback interface; a stub kernel / recording plugins']
+    if push:
+        cov['http_transport'] = dict(push, cmds=None, rule='Push.tla model-checked (every interleaving of 5 messages); every scenario of PushGen.tla (every class of address x every class of receiver alone; sequences behind a slow or silent receiver with a transport queue of 1 and 2) played on the real sender worker and http plugin against loopback receivers; every event judged by PushTrace.tla')
+        assumptions = assumptions + ['Push.tla: failure (non-200 answer) and error (nothing sent / no answer) are both failed hand-offs; the receivers are net/http servers on 127.0.0.1']
     if viol:
-        dd = save_violation(pid, viol, '; '.join(cmds))
+        dd = viol['died'] if viol.get('died') else save_violation(pid, viol, '; '.join(cmds))
         core.write_evidence(pid, tier, seed, 'model_checking', cov, wall, 1, assumptions)
         print_known(pid, seen)
-        print(f'invariant {viol["violated"]} violated at observation {viol["line"]} of {viol["trace"]}')
+        print(f'invariant {viol["violated"]} violated at observation {viol["line"]} of {viol["trace"]}' + (f': {viol.get("chk", "")}' if viol.get('chk') else ''))
         print(f'VIOLATION property={pid} replay={dd}')
         return 1
     core.write_evidence(pid, tier, seed, 'model_checking', cov, wall, 0, assumptions)
     print_known(pid, seen)
-    print(f'{pid} {tier}: all {nvec} vectors of the table played ({nlines} observations) and accepted by TLC; {wall:.0f}s')
+    print(f'{pid} {tier}: all {nvec} vectors of the table played ({nlines} observations) and accepted by TLC' + (f'; {push["scenarios"]} scenarios of the http transport ({push["requests"]} requests received) accepted' if push else '') + f'; {wall:.0f}s')
     shutil.rmtree(rundir, ignore_errors=True)
     return 0
 
